@@ -42,7 +42,12 @@ package doif
 // is tried first.  contains / has-prefix / has-suffix / regexp match are
 // uninterpreted predicates of (data, value).
 
+// (A check only reads: neither the event's bytes - Data.Get hands out the event's own
+// memory - nor the configured values are written; case-insensitive comparison works on a
+// copy.)
+
 //@ func (*fieldOpNode).Check
+//@   pure
 //@   ghost w int = 0
 //@   requires n.op == fieldContainsAnyOp ==> len(n.values) >= 1
 //@   requires 0 <= n.minValLen && n.minValLen <= n.maxValLen
